@@ -359,7 +359,7 @@ impl Property for C01 {
 
     fn assumptions() -> Vec<String> {
         vec![
-            "satoshis_out is compared only when the true sum fits u64 (no u64 answer exists otherwise)".into(),
+            "satoshis_out is called for every transaction, after every other accessor check of the case; output values summing past 2^64 - 1 have no u64 answer and are the known finding output-total-overflow".into(),
             "the library treats any input with the null outpoint as carrying an opaque script (coinbase form); the reference does the same".into(),
             "byte strings the library rejects although the tolerant reference decodes them are not alarms (the statement quantifies over accepted strings); canonical encodings of generated transactions must be accepted".into(),
         ]
